@@ -1803,6 +1803,57 @@ class FragGen(object):
         return d
 
 
+    def members(self):
+        """the fields of a record / union: typed fields (with array lengths naming sibling fields), fields holding
+        a callback, anonymous struct / union members"""
+        rng = self.rng
+        n = rng.choice([0, 1, 2, 3, 3, 4, 5, 7])
+        p_anon = rng.choice([0.0, 0.0, 0.15, 0.3])
+        names = []
+        for i in range(n):
+            nm = rng.choice(['x', 'y', 'data', 'len', 'n_items', 'items', 'u', 'cb', 'priv', 'f%d' % i])
+            if self.coin(0.05):
+                nm = None
+            names.append(nm)
+        if not self.coin(self.wild):
+            seen = set()
+            for i, nm in enumerate(names):
+                if nm is not None and nm in seen:
+                    names[i] = '%s%d' % (nm, i)
+                seen.add(names[i])
+        out = []
+        for nm in names:
+            r = rng.random()
+            d = self.docs()
+            d.update(name=nm, readable=True, writable=False, bits=None, private=False, version=None, skip=False,
+                     introspectable=True, deprecated=None, stability=None)
+            if r < p_anon:
+                self.cnt.hit('frag:member:anon')
+                d['body'] = {'k': 'anon', 'tag': rng.choice(['record', 'union'])}
+                d.update(attributes=[], doc=None, doc_pos=None, version_doc=None, deprecated_doc=None, stability_doc=None)
+                if self.coin(self.wild):
+                    d['writable'] = True        # not carried by the format: folded by canonMember
+            else:
+                d.update(version=self.ostr(['1.0', '2.34'], 0.7), skip=self.coin(0.05), introspectable=not self.coin(0.1),
+                         deprecated=self.ostr(['1.2'], 0.85), stability=self.ostr(['Stable', 'Unstable'], 0.9))
+                if r < p_anon + 0.15:
+                    self.cnt.hit('frag:member:callback')
+                    c = self.callable()
+                    while c['klass'] != 'callback':
+                        c = self.callable()
+                    c['instance'] = None
+                    c['name'] = nm if nm is not None and not self.coin(0.2) else c['name']
+                    d['body'] = {'k': 'callback', 'callable': c}
+                else:
+                    self.cnt.hit('frag:member:typed')
+                    d['body'] = {'k': 'typed', 'type': self.ty(0, names, top=True)}
+                    d.update(readable=not self.coin(0.2), writable=self.coin(0.6), private=self.coin(0.15),
+                             bits=rng.choice([None, None, None, '1', '3', '31'] + (['', '0'] if self.coin(self.wild) else [])))
+            out.append(d)
+        self.cnt.hit('frag:nmembers=%d' % n)
+        return out
+
+
 class RealFrag(object):
     """builds real giscanner.ast objects from the model JSON, writes them with the real GIRWriter,
     reads them with the real GIRParser; every use of a non-public name is guarded."""
@@ -1863,10 +1914,8 @@ class RealFrag(object):
         self.docs(p, j)
         return p
 
-    def build(self, j):
-        """-> (namespace, path to the callable's element)"""
+    def make_callable(self, j):
         ast = self.ast
-        ns = ast.Namespace('Foo', '1.0')
         r = j['retval']
         ret = ast.Return(self.ty(r['type']), r['nullable'], r['not_nullable'], r['transfer'])
         ret.skip = r['skip']
@@ -1888,6 +1937,13 @@ class RealFrag(object):
         f.deprecated, f.stability = j['deprecated'], j['stability']
         f.finish_func, f.sync_func, f.async_func = j['finish_func'], j['sync_func'], j['async_func']
         self.docs(f, j)
+        return f
+
+    def build(self, j):
+        """-> (namespace, path to the callable's element)"""
+        ast = self.ast
+        ns = ast.Namespace('Foo', '1.0')
+        f = self.make_callable(j)
         tag = j['tag']
         if tag in ('function', 'function-inline', 'callback'):
             ns.append(f)
@@ -1906,6 +1962,80 @@ class RealFrag(object):
             rec.methods.append(f)
         ns.append(rec)
         return ns, ['record', tag]
+
+    # ---- members of a record / union
+    MEMBER_TAGS = ('field', 'record', 'union', 'callback')
+
+    def make_member(self, j):
+        ast = self.ast
+        b = j['body']
+        bits = j['bits']
+        if b['k'] == 'typed':
+            f = ast.Field(j['name'], self.ty(b['type']), j['readable'], j['writable'], bits)
+        elif b['k'] == 'callback':
+            f = ast.Field(j['name'], None, j['readable'], j['writable'], bits,
+                          anonymous_node=self.make_callable(b['callable']))
+        else:
+            # Transformer._create_member_compound: name and ctype are the member's identifier
+            cls = ast.Record if b['tag'] == 'record' else ast.Union
+            f = ast.Field(j['name'], None, j['readable'], j['writable'], bits, anonymous_node=cls(j['name'], j['name']))
+        f.private = j['private']
+        f.version, f.skip, f.introspectable = j['version'], j['skip'], j['introspectable']
+        f.deprecated, f.stability = j['deprecated'], j['stability']
+        self.docs(f, j)
+        return f
+
+    def write_members(self, ms, union=False):
+        """the member elements the real writer produces for a record / union with these fields
+        -> ('ok', [trees], bytes) | ('error', ExceptionName, None)"""
+        from xml.etree import ElementTree as ET
+        ast = self.ast
+        try:
+            ns = ast.Namespace('Foo', '1.0')
+            rec = (ast.Union if union else ast.Record)('Holder', ctype='FooHolder')
+            rec.fields.extend(self.make_member(m) for m in ms)
+            ns.append(rec)
+            data = self.m.girwriter.GIRWriter(ns).get_encoded_xml()
+        except (KeyError, ValueError, AssertionError, AttributeError, IndexError, TypeError) as e:
+            return ('error', type(e).__name__, None)
+        root = ET.fromstring(data)
+        el = root.find(scanpipe.q('namespace'))
+        el = [k for k in el if _qn(k.tag) == ('union' if union else 'record')][0]
+        return ('ok', [et_to_tree(k) for k in el if _qn(k.tag) in self.MEMBER_TAGS], data)
+
+    def member_json(self, f):
+        ast = self.ast
+        an = f.anonymous_node
+        if isinstance(an, ast.Callback):
+            body = {'k': 'callback', 'callable': self.callable_json(an, 'callback', 'callback')}
+        elif isinstance(an, ast.Record):
+            body = {'k': 'anon', 'tag': 'record'}
+        elif isinstance(an, ast.Union):
+            body = {'k': 'anon', 'tag': 'union'}
+        else:
+            body = {'k': 'typed', 'type': self.ty_json(f.type)}
+        d = self.docs_json(f, False)
+        d.update(name=f.name, body=body, readable=bool(f.readable), writable=bool(f.writable),
+                 bits=None if f.bits is None else str(f.bits), private=bool(f.private), version=f.version,
+                 skip=bool(f.skip), introspectable=bool(f.introspectable), deprecated=f.deprecated,
+                 stability=f.stability)
+        return d
+
+    def parse_members(self, trees, union=False):
+        """real GIRParser on <record name="Holder">members</record> -> ('ok', [member json]) | ('error', name)"""
+        from xml.etree import ElementTree as ET
+        tag = 'union' if union else 'record'
+        inner = '<%s name="Holder" c:type="FooHolder">%s</%s>' % (tag, ''.join(tree_to_xml(t) for t in trees), tag)
+        doc = ('<?xml version="1.0"?><repository version="1.2" xmlns="http://www.gtk.org/introspection/core/1.0" '
+               'xmlns:c="http://www.gtk.org/introspection/c/1.0" xmlns:doc="http://www.gtk.org/introspection/doc/1.0" '
+               'xmlns:glib="http://www.gtk.org/introspection/glib/1.0"><namespace name="Foo" version="1.0" '
+               'shared-library="" c:identifier-prefixes="Foo" c:symbol-prefixes="foo">%s</namespace></repository>' % inner)
+        p = self.m.girparser.GIRParser()
+        try:
+            p.parse_tree(ET.ElementTree(ET.fromstring(doc.encode('utf-8'))))
+            return ('ok', [self.member_json(f) for f in p.get_namespace().get('Holder').fields])
+        except (KeyError, ValueError, AssertionError, AttributeError, IndexError, TypeError) as e:
+            return ('error', type(e).__name__)
 
     def write(self, j):
         """-> ('ok', tree, xml bytes) | ('error', ExceptionName)"""
@@ -2311,6 +2441,7 @@ def _run(ctx, cnt, rng, fast):
     # ---------------- corpus
     corpus = load_corpus()
     frag_corpus = []
+    member_corpus = []
     for e in corpus:
         kind = e.get('kind')
         cnt.hit('corpus:' + str(kind))
@@ -2336,6 +2467,8 @@ def _run(ctx, cnt, rng, fast):
             cnt.case(['gir', e['text']])
         elif kind == 'callable':
             frag_corpus.append(e['callable'])
+        elif kind == 'members':
+            member_corpus.append(e['members'])
 
     # ---------------- every GIR file of the repository
     files = repo_gir_files()
@@ -2469,6 +2602,85 @@ def _run(ctx, cnt, rng, fast):
         ctx.broken.append('fragment correspondence could not run against this tree: %r\n%s'
                           % (e, traceback.format_exc()[-500:]))
 
+    # ---------------- members of records / unions: Lean model vs real writer / reader
+    try:
+        rf = RealFrag(fast)
+        fg = FragGen(rng, cnt, wild=0.08)
+        mcases = list(member_corpus) + [fg.members() for _ in range(ctx.n(350, 5000))]
+        mres = ctx.driver.batch([{'op': 'c07.cycle_members', 'ns': 'Foo', 'members': ms} for ms in mcases])
+        n_dis = 0
+        mmuts = []
+        for i, (ms, r) in enumerate(zip(mcases, mres)):
+            evaluations += 1
+            union = i % 3 == 2
+            real = rf.write_members(ms, union)
+            mw = norm_model_result(r['w1'])
+            cnt.hit('members:write:' + real[0] + ('' if real[0] == 'ok' else ':' + real[1]))
+            cnt.hit('members:wf=%s,field_only=%s' % (r['wf'], r['field_only']))
+            cnt.case(['members', ms], nontrivial=len(ms) > 1)
+            if real[0] != mw[0] or real[1] != mw[1]:
+                n_dis += 1
+                if n_dis <= 3:
+                    ctx.broken.append('correspondence c07.write_members differs: members=%s real=%s model=%s'
+                                      % (short(ms, 500), short(real[:2], 500), short(mw, 500)))
+                continue
+            if r['wf'] and r['field_only'] and r['write_ok'] and not (r['roundtrip'] and r['fixpoint']):
+                ctx.broken.append('the compiled model contradicts C07_members_roundtrip_partial on %s' % short(ms, 400))
+            if real[0] != 'ok':
+                continue
+            rp = rf.parse_members(real[1], union)
+            mp = norm_model_result(r['parsed'])
+            cnt.hit('members:parse:' + (rp[0] if rp[0] == 'ok' else rp[1]))
+            if rp[0] != mp[0] or rp[1] != mp[1]:
+                n_dis += 1
+                if n_dis <= 3:
+                    d = deep_diff(rp[1], mp[1]) if rp[0] == 'ok' and mp[0] == 'ok' else [('result', rp, mp)]
+                    ctx.broken.append('correspondence c07.parse_members differs on the written members of %s: %s'
+                                      % (short(ms, 300), short(d, 500)))
+                continue
+            # the property's oracle on the real code, member level: what was read, written again, is the same
+            if r['wf']:
+                real2 = rf.write_members(rp[1], union) if rp[0] == 'ok' else rp
+                same = real2[0] == 'ok' and real2[1] == real[1]
+                if same:
+                    cnt.hit('members:real-fixpoint:ok')
+                else:
+                    what = ('the members of a %s are not a write fixed point on the real code: %s; members=%s'
+                            % ('union' if union else 'record',
+                               short(deep_diff(real[1], real2[1]) if real2[0] == 'ok' else real2[:2], 400), short(ms, 600)))
+                    rep = {'kind': 'members', 'members': ms, 'union': union}
+                    if not r['field_only']:
+                        cnt.hit('members:real-fixpoint:pending(anonymous member before an array length)')
+                        pending.hit('compound-array-length-misindexed', what, rep)
+                    else:
+                        cnt.hit('members:real-fixpoint:FAIL')
+                        ctx.report_failure('members:' + json.dumps(ms, sort_keys=True)[:2000], what, rep)
+            else:
+                cnt.hit('members:not-wf')
+            t, op = mutate_tree(rng, {'tag': 'record', 'attrs': [], 'kids': real[1], 'text': None})
+            # the content of an anonymous <record>/<union> member is read by _parse_compound again: not modelled
+            if all(not k['kids'] for k in t['kids'] if k['tag'] in ('record', 'union')):
+                mmuts.append((t['kids'], union, op))
+        mr = ctx.driver.batch([{'op': 'c07.parse_members', 'ns': 'Foo', 'kids': k} for k, u, op in mmuts])
+        for (kids, union, op), r in zip(mmuts, mr):
+            evaluations += 1
+            rp = rf.parse_members(kids, union)
+            mp = norm_model_result(r)
+            cnt.hit('members:malformed:%s:%s' % (op, rp[0] if rp[0] == 'ok' else rp[1]))
+            cnt.case(['mmut', kids], nontrivial=True)
+            if rp[0] != mp[0] or rp[1] != mp[1]:
+                n_dis += 1
+                if n_dis <= 3:
+                    d = deep_diff(rp[1], mp[1]) if rp[0] == 'ok' and mp[0] == 'ok' else [('result', rp, mp)]
+                    ctx.broken.append('correspondence c07.parse_members differs on perturbed members (%s) %s: %s'
+                                      % (op, ''.join(tree_to_xml(k) for k in kids)[:400], short(d, 400)))
+        if mcases:
+            samples.append({'kind': 'members', 'members': mcases[-1]})
+        cnt.hit('members:disagreements', n_dis)
+    except Exception as e:  # noqa: a private name used for the member tie is gone / changed
+        ctx.broken.append('member correspondence could not run against this tree: %r\n%s'
+                          % (e, traceback.format_exc()[-500:]))
+
     # ---------------- are the theorems' side conditions invariants of what the scanner writes?
     try:
         if wf_queue:
@@ -2587,6 +2799,18 @@ def replay(ctx, rep):
             if w[0] == 'ok':
                 p = rf.parse(w[1], r['callable']['klass'], 0)
                 w2 = rf.write(p[1]) if p[0] == 'ok' else p
+                same = w2[0] == 'ok' and w2[1] == w[1]
+                print('write(parse(write)) == write:', same)
+                return 0 if same else 1
+            return 2
+        elif kind == 'members':
+            rf = RealFrag(fast)
+            w = rf.write_members(r['members'], r.get('union', False))
+            print('real write:', short(w[:2], 3000))
+            if w[0] == 'ok':
+                p = rf.parse_members(w[1], r.get('union', False))
+                print('real parse:', short(p, 3000))
+                w2 = rf.write_members(p[1], r.get('union', False)) if p[0] == 'ok' else p
                 same = w2[0] == 'ok' and w2[1] == w[1]
                 print('write(parse(write)) == write:', same)
                 return 0 if same else 1
